@@ -1,4 +1,6 @@
 SPECIFICATION Spec
-CONSTANT MaxLen = 5
-INVARIANTS NoBad OwnerOnTop LoopTagLive AllClosedAtEnd
+CONSTANTS MaxLen = 5
+          Fuel = 7
+          Variant = "current"
+INVARIANTS NoBad PsLive ChainLive AllClosedAtEnd LoopsEnclose LevelIsDepth
 CHECK_DEADLOCK FALSE
